@@ -297,3 +297,153 @@ pub fn gen_coercion(r: &mut Rng, wrap_other: bool) -> Coercion {
     }
     Coercion { h, shape }
 }
+
+// Polymorphic coercions: a function over 2-3 type parameters with groups of aliases between and
+// below its binders,
+//
+//   co : ((w : type) -> (v : type) -> D1 -> D2 -> C)
+//      = (w : type) => (a1 : type = w; (v : type) => (a2 : type = v; a3 : type = a1; (z1 : a3) => (z2 : a2) => z1))
+//   r : <C instantiated> = co int bool 3 true; <r used at its annotated type>
+//
+// The function's parameters are typed through the aliases (chains, decoys, aliases of ground
+// types), so the type the checker rebuilds for each group mentions the group's members and the
+// enclosing binders at several distances. The annotation is written with the type parameters
+// directly; in about half of the cases one occurrence names another parameter (a near miss that
+// only a confusion between the enclosing variables can accept). The verdict is the reference's.
+pub fn gen_poly_coercion(r: &mut Rng) -> Coercion {
+    #[derive(Clone, PartialEq)]
+    enum D {
+        P(usize), // type parameter
+        G(bool),  // ground: int / bool
+    }
+    let k = 2 + r.usize(2);
+    let pnames = ["w", "v", "u"];
+    // instantiations: the first two differ
+    let first_int = r.chance(1, 2);
+    let inst: Vec<bool> = (0..k).map(|i| if i == 0 { first_int } else if i == 1 { !first_int } else { r.chance(1, 2) }).collect();
+    // frames: type parameters with alias groups after some of them
+    let mut aliases: Vec<(String, D)> = vec![]; // every alias so far and what it denotes
+    let mut frames: Vec<(usize, Vec<(String, H)>)> = vec![]; // (parameter index, group after it)
+    let mut fresh = 0;
+    for p in 0..k {
+        let mut group = vec![];
+        if p + 1 == k || r.chance(1, 2) {
+            for _ in 0..1 + r.usize(3) {
+                fresh += 1;
+                let name = format!("a{fresh}");
+                let (def, den) = match r.below(5) {
+                    0 | 1 => {
+                        let q = r.usize(p + 1);
+                        (H::var(pnames[q]), D::P(q))
+                    }
+                    2 if !aliases.is_empty() => {
+                        let (n, d) = aliases[r.usize(aliases.len())].clone();
+                        (H::Var(n), d)
+                    }
+                    3 => {
+                        let b = r.chance(1, 2);
+                        (G::ground(b), D::G(b))
+                    }
+                    _ => (H::var(pnames[p]), D::P(p)),
+                };
+                group.push((name.clone(), def));
+                aliases.push((name, den));
+            }
+        }
+        frames.push((p, group));
+    }
+    // value parameters typed by aliases (or by a type parameter directly)
+    let m = 1 + r.usize(2);
+    let mut zs: Vec<(String, H, D)> = vec![];
+    for i in 0..m {
+        let (th, den) = if !aliases.is_empty() && r.chance(4, 5) {
+            let (n, d) = aliases[r.usize(aliases.len())].clone();
+            (H::Var(n), d)
+        } else {
+            let q = r.usize(k);
+            (H::var(pnames[q]), D::P(q))
+        };
+        zs.push((format!("z{}", i + 1), th, den));
+    }
+    let ret = r.usize(m);
+    // the function, inside out
+    let mut body = H::var(&zs[ret].0);
+    for (zn, th, _) in zs.iter().rev() {
+        body = H::Lam(zn.clone(), false, Some(hb(th.clone())), hb(body));
+    }
+    // sometimes the function is itself a member of the innermost group
+    let fn_as_member = r.chance(1, 3) && !frames[k - 1].1.is_empty();
+    let den_h = |d: &D| match d {
+        D::P(q) => H::var(pnames[*q]),
+        D::G(b) => G::ground(*b),
+    };
+    for (fi, (p, group)) in frames.iter().enumerate().rev() {
+        let mut inner = body;
+        if fi + 1 == k && fn_as_member {
+            let mut fty = H::Var(match &zs[ret].1 {
+                H::Var(n) => n.clone(),
+                _ => "w".into(),
+            });
+            for (_, th, _) in zs.iter().rev() {
+                fty = H::Pi("_".into(), false, hb(th.clone()), hb(fty));
+            }
+            inner = H::Let("fn".into(), Some(hb(fty)), hb(inner), hb(H::var("fn")));
+        }
+        for (an, def) in group.iter().rev() {
+            inner = H::Let(an.clone(), Some(hb(H::Type)), hb(def.clone()), hb(inner));
+        }
+        if !group.is_empty() {
+            inner = H::Paren(hb(inner));
+        }
+        body = H::Lam(pnames[*p].to_owned(), false, Some(hb(H::Type)), hb(inner));
+    }
+    // the annotation, with the parameters written directly; a near miss in half of the cases
+    let mut dens: Vec<D> = zs.iter().map(|z| z.2.clone()).collect();
+    dens.push(zs[ret].2.clone());
+    if r.chance(1, 2) {
+        let at = r.usize(dens.len());
+        dens[at] = match &dens[at] {
+            D::P(q) => D::P((q + 1 + r.usize(k - 1)) % k),
+            D::G(b) => {
+                if r.chance(1, 2) {
+                    D::G(!b)
+                } else {
+                    D::P(r.usize(k))
+                }
+            }
+        };
+    }
+    let mut ann = den_h(&dens[m]);
+    for d in dens[..m].iter().rev() {
+        ann = H::Pi("_".into(), false, hb(den_h(d)), hb(ann));
+    }
+    for p in (0..k).rev() {
+        ann = H::Pi(pnames[p].to_owned(), false, hb(H::Type), hb(ann));
+    }
+    // the call: values of the types the *annotation* promises
+    let ground_of = |d: &D| match d {
+        D::P(q) => inst[*q],
+        D::G(b) => *b,
+    };
+    let mut call = H::var("co");
+    for p in 0..k {
+        call = H::App(hb(call), hb(G::ground(inst[p])));
+    }
+    for d in &dens[..m] {
+        let v = if ground_of(d) { lit(r.range(0, 40)) } else if r.chance(1, 2) { H::True } else { H::False };
+        call = H::App(hb(call), hb(v));
+    }
+    let res_int = ground_of(&dens[m]);
+    let use_r = match r.below(3) {
+        0 => H::var("r"),
+        _ if res_int => H::Bin(Op::Add, hb(H::var("r")), hb(H::lit(1))),
+        _ => H::If(hb(H::var("r")), hb(H::lit(1)), hb(H::lit(2))),
+    };
+    let h = H::Let("co".into(), Some(hb(ann)), hb(body), hb(H::Let("r".into(), Some(hb(G::ground(res_int))), hb(call), hb(use_r))));
+    Coercion { h, shape: "polymorphic:aliases-between-binders" }
+}
+
+// The mix used by the sections of C01, C03, C04, C05.
+pub fn gen_any(r: &mut Rng, wrap_other: bool) -> Coercion {
+    if r.chance(1, 4) { gen_poly_coercion(r) } else { gen_coercion(r, wrap_other) }
+}
